@@ -30,12 +30,14 @@ def run(chk, replay=None):
     dims_common.run_dims(chk, c08=True)
     binary = vcheck.ensure_build('plain')
     t = 't' if chk.thorough else 'q'
-    rp = vcheck.Replayer(binary, seed=chk.seed, opts={'types': ['Double', 'String', 'Int16'], 'compressions': ['None']}, chunk=60)
+    # (every line is executed; an accepted call, or one rejected without a trace where the specification expected success, is not judged)
+    rp = vcheck.Replayer(binary, seed=chk.seed, opts={'types': ['Double', 'String', 'Int16'], 'compressions': ['None'], 'c08_only': True}, chunk=60)
     for c in ['r1_' + t, 'r2_' + t, 'r3_' + t, 'view1_' + t]:
         run = vcheck.TlcRun('NixData', 'MC_NixData_%s.cfg' % c, workers=8, coverage=False)
-        recs, verdicts = rp.run(r for r in run if rej(r))
+        recs, verdicts = rp.run(r for r in run)
         run.require_ok()
         chk.note_tlc(run)
+        verdicts = [v for v in verdicts if v.get('c08') or rej(recs.get(v.get('i'), {'step': {'res': ''}})) or v.get('v') not in ('ok', 'mismatch', 'unjudgeable')]
         chk.absorb(recs, verdicts, rp)
     # direction B: random API programs recorded from the real library, validated against NixFileTrace.tla
     file_common.run_traces(chk, lambda e: e['res'] == 'reject', 24 if chk.thorough else 6, 1500 if chk.thorough else 400)
